@@ -6,7 +6,7 @@ import tempfile
 import datetime as dt
 
 from harness.core import Part, ok, viol, discard, HarnessError
-from harness import dp, bv, grammar, bumpref, pep440ref
+from harness import fuzz, dp, bv, grammar, bumpref, pep440ref
 from harness.refmodel import PART_FIELD, CAL_FIELDS, parts_of, pattern_str, ref_render, ref_parse_all, with_defaults, ref_cal
 
 from bumpver import version as bv_version
@@ -225,6 +225,7 @@ def selftest():
 PARTS = [
     Part("A-day-pairs", check=check_pairs, domain=pair_domain, exhaustive=lambda tier: True),
     Part("B-bump-level", check=check_b, strategy=lambda: dp.cases(build_b, size=64), n={"quick": 16000, "thorough": 480000}),
+    fuzz.fuzz_part("B-coverage-guided", build_b, check_b, size=64, runs={"quick": 6000, "thorough": 160000}),
     Part("C-rejected-pairings", check=check_rejected, domain=rejected_domain, exhaustive=lambda tier: True, max_discard=0.5),
 ]
 
